@@ -83,6 +83,7 @@ Definition ex_sc : cfgT := mkcfg false true true true true false true false 0 16
 Definition honest_op (o : op) : bool :=
   match o with
   | OInject _ => false
+  | OReplayPha => false
   | OSetDev d => d =? 0
   | ORequestAuth wf => wf
   | _ => true
